@@ -3,6 +3,7 @@ package rules
 import (
 	"fmt"
 	"go/ast"
+	"go/constant"
 	"go/token"
 	"go/types"
 	"sort"
@@ -33,6 +34,10 @@ func propC09(c *Ctx) {
 	// the recursion guard must refuse only a file that is really on the stack: a set keyed by anything but the
 	// file's own name refuses legal splits (two files with one base name) or misses a cycle
 	c.ruleC14CycleGuard()
+	// INCLUDE wherever a directive may start: the pre-filters of the Description text must let it through
+	c.ruleFirstByteTables("C09-KEYWORD-PREFILTER")
+	// a place is a (file, offset) pair
+	c.rulePositionNeedsFile("C09-POSITION-NEEDS-FILE")
 }
 
 func (c *Ctx) ruleNoWriteAtSwitch() {
@@ -620,6 +625,26 @@ var nameSpaces = map[string]string{
 	"rawUserTypes": "user types", "userTypes": "user types", "UserTypes": "user types",
 }
 
+// nameSpaceOf: the name space an expression denotes: one of the known cross-block spaces, or -- for any other map or
+// ordered-map field of a struct of the module (a set of seen URLs, of operation ids, ...) -- a space of its own, so
+// that a lookup whose miss is an error in the phase that still fills the collection is found wherever it is added.
+func (c *Ctx) nameSpaceOf(pk *packages.Package, e ast.Expr) string {
+	fld := fieldSel(pk, e)
+	if fld == nil {
+		return ""
+	}
+	if sp := nameSpaces[fld.Name()]; sp != "" {
+		return sp
+	}
+	if fld.Pkg() == nil || !c.P.IsLibPkg(fld.Pkg()) {
+		return ""
+	}
+	if _, isMap := fld.Type().Underlying().(*types.Map); isMap || orderedMapType(fld.Type()) {
+		return "field " + fld.Name()
+	}
+	return ""
+}
+
 func (c *Ctx) ruleCollectBeforeUse() {
 	r := c.R
 	r.Rule("C15-COLLECT-BEFORE-USE", "phases = the calls of processJApiProject and compileCore in order. For each name space (macros: core.macro; enums: core.rules + catalog.UserEnums; tags: catalog.Tags; user types: rawUserTypes, userTypes, catalog.UserTypes): an INSERT is a map store / Set; a RESOLVE is a lookup (comma-ok index, Get) whose miss branch returns an error. No phase that inserts may come after, or be the same as, a phase that resolves - except inserts guarded by their own duplicate test only", 4)
@@ -639,12 +664,7 @@ func (c *Ctx) ruleCollectBeforeUse() {
 			if strings.HasSuffix(pk.Fset.Position(f.Decl.Pos()).Filename, "_gen.go") {
 				continue
 			}
-			spaceOf := func(e ast.Expr) string {
-				if fld := fieldSel(pk, e); fld != nil {
-					return nameSpaces[fld.Name()]
-				}
-				return ""
-			}
+			spaceOf := func(e ast.Expr) string { return c.nameSpaceOf(pk, e) }
 			ast.Inspect(f.Decl.Body, func(nd ast.Node) bool {
 				switch x := nd.(type) {
 				case *ast.AssignStmt:
@@ -726,7 +746,7 @@ func (c *Ctx) ruleCollectBeforeUse() {
 						continue
 					}
 					fld := fieldSel(pk, sel.X)
-					if fld == nil || nameSpaces[fld.Name()] == "" {
+					if fld == nil || c.nameSpaceOf(pk, sel.X) == "" {
 						continue
 					}
 					ifs, ok := blk.List[j+1].(*ast.IfStmt)
@@ -736,7 +756,7 @@ func (c *Ctx) ruleCollectBeforeUse() {
 					if u, isNot := ast.Unparen(ifs.Cond).(*ast.UnaryExpr); isNot && u.Op == token.NOT && returnsNonNilError(pk, ifs.Body.List) {
 						if id, isId := ast.Unparen(u.X).(*ast.Ident); isId {
 							if okId, ok2 := as.Lhs[1].(*ast.Ident); ok2 && pk.TypesInfo.Uses[id] == objOf(pk, okId) {
-								sp := nameSpaces[fld.Name()]
+								sp := c.nameSpaceOf(pk, sel.X)
 								bySpace[sp] = append(bySpace[sp], acc{i, nsAccess{f.Name(), ifs.Pos(), "resolve"}})
 							}
 						}
@@ -752,6 +772,9 @@ func (c *Ctx) ruleCollectBeforeUse() {
 	}
 	sort.Strings(spaces)
 	for _, sp := range spaces {
+		if c.nsOnlyFields && !strings.HasPrefix(sp, "field ") {
+			continue // the cross-block name spaces are C15's business
+		}
 		firstResolve := len(phases)
 		var resolveAt nsAccess
 		for _, a := range bySpace[sp] {
@@ -978,8 +1001,17 @@ func (c *Ctx) ruleFirstByteTables(rule string) {
 		return
 	}
 	need := map[byte]string{}
+	var kws []string
 	for w := range t.KeywordSet() {
-		need[w[0]] = w
+		kws = append(kws, w)
+	}
+	sort.Strings(kws)
+	for _, w := range kws {
+		if need[w[0]] == "" {
+			need[w[0]] = w
+		} else {
+			need[w[0]] += ", " + w
+		}
 	}
 	for _, d := range "12345" {
 		need[byte(d)] = "response code"
@@ -1044,6 +1076,39 @@ func (c *Ctx) ruleFirstByteTables(rule string) {
 			}
 			return true
 		})
+		// in any form (helper predicates, tagless switches, inverted tests): run the function's own tests with every
+		// byte-valued expression standing for the first byte of a keyword; if all that is left is `false`, lines that
+		// start with this keyword are filtered out before the keyword table is asked
+		var filtered []string
+		var needBytes []int
+		for b := range need {
+			needBytes = append(needBytes, int(b))
+		}
+		sort.Ints(needBytes)
+		for _, b := range needBytes {
+			bb := byte(b)
+			env := &constEnv{c: c}
+			env.leaf = func(g *Fn, e ast.Expr) (constant.Value, bool) {
+				tv, ok := g.Pkg.TypesInfo.Types[e]
+				if !ok || tv.Value != nil || tv.Type == nil {
+					return nil, false
+				}
+				if bt, ok := tv.Type.Underlying().(*types.Basic); ok && (bt.Kind() == types.Uint8 || bt.Kind() == types.Int32) {
+					return constant.MakeInt64(int64(bb)), true
+				}
+				return nil, false
+			}
+			outs := map[string]bool{}
+			env.evalBody(f, f.Decl.Body.List, outs, 0)
+			if len(outs) == 1 && outs["false"] {
+				filtered = append(filtered, fmt.Sprintf("%q (%s)", bb, need[bb]))
+			}
+		}
+		if len(filtered) > 0 {
+			r.Bad(rule, spec[1]+" | first byte", "the function answers false for every line that starts with "+strings.Join(filtered, ", ")+" whatever follows: such a directive right after a Description is taken for text", c.pos(f.Decl.Pos()))
+		} else {
+			r.Ok(rule, spec[1]+" | first byte", "no first byte of a keyword (nor 1-5) is enough to make the function answer false", c.pos(f.Decl.Pos()))
+		}
 		if len(sets) == 0 {
 			r.Ok(rule, spec[1], "no first-byte pre-filter: every line is compared with the whole keyword table", c.pos(f.Decl.Pos()))
 			continue
